@@ -1547,30 +1547,6 @@ def check_restart(case):
 
 # ------------------------------------------------------------------ backward iteration (negative step)
 
-BACKWARD_KEY = "C10/backward-labels-follow-iteration-order"
-
-
-def _backward_labels_finding(facet, case, kind, msg, data):
-    """Periapsis/Apoapsis, umbra/penumbra entry/exit and mask AOS/LOS are decided against the previously
-    iterated sample: iterating backward in time swaps them.  Pinned to: backward facet, label swap of exactly
-    those listener kinds, same instant."""
-    return (facet == "backward" and kind == "backward-label" and (data or {}).get("listener") in ("apside", "light", "mask")
-            and (data or {}).get("swapped") is True)
-
-
-FINDINGS[BACKWARD_KEY] = _backward_labels_finding
-
-BACKWARD_ORDER_KEY = "C10/backward-events-of-one-step-in-forward-order"
-
-
-def _backward_order_finding(facet, case, kind, msg, data):
-    """listen() sorts the events found between two samples by increasing date whatever the direction of the
-    iteration.  Pinned to: backward facet, two EVENTS (not samples) of one step out of order."""
-    return facet == "backward" and kind == "order-stream" and (data or {}).get("both_events") is True
-
-
-FINDINGS[BACKWARD_ORDER_KEY] = _backward_order_finding
-
 SWAPS = {"Periapsis": "Apoapsis", "Apoapsis": "Periapsis", "Umbra entry": "Umbra exit", "Umbra exit": "Umbra entry",
          "Penumbra entry": "Penumbra exit", "Penumbra exit": "Penumbra entry", "AOS": "LOS", "LOS": "AOS"}
 
@@ -1587,8 +1563,6 @@ def backward_case(draw, shard, tier):
 
 
 def check_backward(case):
-    from .. import findings
-
     what = describe(case)
     start, stop, step = grid(case)
     src_f, native = make_source(case)
@@ -1619,7 +1593,6 @@ def check_backward(case):
     if [e.lis for e in fe] != [e.lis for e in be]:
         raise Violation("backward-events", f"{what}: forward iteration finds {[(e.us, e.label) for e in fe][:5]}, backward "
                                            f"iteration over the same span {[(e.us, e.label) for e in be][:5]}")
-    known = {}
     for f, b in zip(fe, be):
         if abs(f.us - b.us) > 3:
             raise Violation("backward-date", f"{what}: '{f.label}' at {f.us} us forward, '{b.label}' at {b.us} us backward")
@@ -1628,13 +1601,9 @@ def check_backward(case):
             data = dict(listener=kind, swapped=SWAPS.get(f.label) == b.label, forward=f.label, backward=b.label)
             msg = (f"{what}: the crossing at t = {f.us / 1e6} s is '{f.label}' when iterating forward and '{b.label}' when "
                    f"iterating backward in time")
-            key = findings.match("C10", "backward", case, "backward-label", msg, data)
-            if key is None:
-                raise Violation("backward-label", msg, **data)
-            k = known.setdefault(key, dict(n=0, example=dict(kind="backward-label", msg=msg, data=data)))
-            k["n"] += 1
+            raise Violation("backward-label", msg, **data)
     stats = dict(events=len(fe), multi=False, skipped=0)
-    return dict(nt=len(fe) > 0, cls=classes_of(case, stats), known=known)
+    return dict(nt=len(fe) > 0, cls=classes_of(case, stats))
 
 
 # ------------------------------------------------------------------ facets
@@ -1648,7 +1617,7 @@ FACETS = [
           rule="stream with at least one event", quick=(8, 5), thorough=(32, 25)),
     Facet("station_passes", passes_case, check_passes, setup=setup, shrink_quick=False,
           rule="two or more passes over the station inside one iteration and at least one event",
-          quick=(8, 2), thorough=(32, 15)),
+          quick=(6, 2), thorough=(32, 15)),
     Facet("ordered", lambda s, t: stream_case(s, t, nmin=2, nmax=4), check_ordered, setup=setup, shrink_quick=False,
           rule="stream with at least one event", quick=(6, 6), thorough=(16, 50)),
     Facet("sharp", lambda s, t: stream_case(s, t, nmax=3), check_sharp, setup=setup, shrink_quick=False,
@@ -1666,7 +1635,7 @@ FACETS = [
           rule="two or more listeners and at least one event", quick=(4, 5), thorough=(16, 30)),
     Facet("reuse_other_trajectory", reuse_sources_case, check_reuse_sources, setup=setup, shrink_quick=False,
           rule="the same listener objects served at least two different trajectories and at least one event occurred",
-          quick=(8, 2), thorough=(32, 8)),
+          quick=(6, 2), thorough=(32, 8)),
     Facet("find_event", find_case, check_find, setup=setup, shrink_quick=False,
           rule="at least one query that has an answer in the stream", quick=(6, 5), thorough=(16, 40)),
     Facet("restart_from_yielded_state", restart_case, check_restart, setup=setup, shrink_quick=False,
